@@ -56,7 +56,7 @@ fn hostile_world(rng: &mut Rng) -> (World, &'static str) {
             label = "long-chain";
             // memory use is quadratic in the chain length (known finding); the long
             // variant deterministically exceeds the address-space limit
-            let d = if rng.chance(1, 8) { 1300 + rng.usize(200) } else { 50 + rng.usize(450) };
+            let d = if rng.chance(1, 16) { 1300 + rng.usize(200) } else { 50 + rng.usize(450) };
             let mut s = String::from("pragma circom 2.0.0;\ntemplate T() {\n  signal input a;\n  signal output b;\n  b <== a");
             let ops = [" + ", " * ", " - "];
             for i in 0..d {
@@ -251,7 +251,7 @@ pub fn build_case(seed: u64, i: usize, thorough: bool) -> Built {
         configured.push(k.to_string());
         plan.faults.push(Fault { call: call.into(), errno, occurrence: 1 + r_fault.below(2) as i64, suffix: target });
         if r_fault.chance(1, 3) {
-            plan.shortread = 1 + r_fault.below(7) as i64;
+            plan.shortread = 4 + r_fault.below(28) as i64;
             configured.push("short-read".into());
         }
         mode = "generated+fs-errno";
@@ -377,7 +377,7 @@ pub fn run(env: &Env) -> i32 {
                 clock_reads: 0,
                 sim_ns: 0,
                 fp: 0,
-                error: Some(e),
+                error: Some(format!("index {i}: {e}")),
             },
         }
     });
@@ -402,7 +402,12 @@ pub fn run(env: &Env) -> i32 {
             b.case.clone()
         } else {
             // minimise while the same signature persists
+            println!("minimising {sig} (run {i}) ...");
+            let deadline = Instant::now() + std::time::Duration::from_secs(90);
             let mut fails = |c: &Case| -> bool {
+                if Instant::now() > deadline {
+                    return false;
+                }
                 match runner.run(c) {
                     Ok(o) => judge(&o, b.mode).map(|(s, _)| &s == sig).unwrap_or(false),
                     Err(_) => false,
